@@ -7,8 +7,10 @@ import (
 	"fmt"
 	"io"
 	"math/rand"
+	"net/http"
 	"net/http/httptest"
 	"path"
+	"reflect"
 	"sort"
 	"strings"
 
@@ -46,6 +48,14 @@ type c19Reg struct {
 	B    Bs     `json:"b,omitempty"`
 }
 
+// one request of the history sent to ONE handler of a validated API
+type c19Req struct {
+	Op     int      `json:"op"`               // index of the operation addressed
+	CT     Bs       `json:"ct,omitempty"`     // Content-Type header as sent; empty: no body
+	Accept []Bs     `json:"accept,omitempty"` // Accept header lines; none: header absent
+	Creds  []string `json:"creds,omitempty"`  // schemes for which the request carries valid credentials
+}
+
 type c19In struct {
 	BasePath  string     `json:"base_path,omitempty"` // basePath of the description, as written
 	GConsumes []Bs       `json:"consumes,omitempty"`
@@ -54,7 +64,11 @@ type c19In struct {
 	Defs      []c19Def   `json:"defs,omitempty"`
 	Ops       []c19Op    `json:"ops"`
 	Regs      []c19Reg   `json:"regs"`
-	Variant   string     `json:"variant"`
+	// the history of requests served by one handler when the API validates (absent: one plain request per operation)
+	Reqs []c19Req `json:"reqs,omitempty"`
+	// later batches of registrations made on the SAME API value, Validate() called again after each
+	Steps   [][]c19Reg `json:"steps,omitempty"`
+	Variant string     `json:"variant"`
 }
 
 type c19Fail struct {
@@ -63,12 +77,34 @@ type c19Fail struct {
 	Unregistered []Bs   `json:"unregistered"`
 }
 
+// what came back for one request
+type c19Res struct {
+	// 0 the handler of that operation ran and 200 was written, 1 500 no consumer registered, 2 panic can't find a producer, 3 other,
+	// 4 not routed (404/405), 5 415, 6 406, 7 401
+	Outcome  int    `json:"outcome"`
+	CType    Bs     `json:"ctype,omitempty"`    // outcome 0: Content-Type of the response
+	Producer Bs     `json:"producer,omitempty"` // outcome 0: key of the producer that wrote the body
+	Ran      string `json:"ran,omitempty"`      // METHOD template of the operation whose handler ran, when it is not the one addressed
+	Detail   string `json:"detail,omitempty"`
+}
+
 type c19Served struct {
-	Op      int    `json:"op"`
-	CT      Bs     `json:"ct,omitempty"`
-	Outcome int    `json:"outcome"` // 0 handler ran, 1 500 no consumer registered, 2 panic can't find a producer, 3 other, 4 not routed (404/405)
-	Target  string `json:"target,omitempty"`
-	Detail  string `json:"detail,omitempty"`
+	Req    c19Req `json:"req"`
+	Target string `json:"target,omitempty"`
+	Shared c19Res `json:"shared"` // on the handler that serves the whole history
+	Fresh  c19Res `json:"fresh"`  // the same request on a fresh API value + context + handler
+}
+
+// Validate() after a later batch of registrations: on the API value that has the history, and on a fresh value
+// given every registration made so far
+type c19Ans struct {
+	Err      *c19Fail `json:"err,omitempty"`
+	OtherErr string   `json:"other_err,omitempty"`
+}
+
+type c19More struct {
+	Shared c19Ans `json:"shared"`
+	Fresh  c19Ans `json:"fresh"`
 }
 
 type c19Obs struct {
@@ -83,6 +119,7 @@ type c19Obs struct {
 	Default    Bs          `json:"api_default"`
 	Routed     []c19Routed `json:"routed,omitempty"`
 	Served     []c19Served `json:"served,omitempty"`
+	More       []c19More   `json:"more,omitempty"`
 }
 
 type c19Routed struct {
@@ -101,7 +138,10 @@ func (c19) Rule() string {
 		"base path absent or one of 8 spellings (root, trailing slash, dots, dashes, nested); templates of 1-3 segments with dots, dashes, underscores, tildes, at most one placeholder, or built around the base path (repeated as leading/trailing segments, substring of a segment); " +
 		"0-3 security definitions basic/apiKey, global and per-operation requirements incl. empty, anonymous, AND/OR alternatives, undefined or unused schemes; media types lower-case mostly, " +
 		"rarely with upper-case letters or parameters) x registration sets: exact, each single omission, each single addition, case variants of media types/methods/paths, JSON defaults kept or dropped, an operation registered under its full route, random subsets; " +
-		"every declared operation of each validated API is looked up in the real router under base path + template, and (simple descriptions) sent a well-formed request (body with an admitted content type for POST/PUT, credentials for every scheme). " +
+		"every declared operation of each validated API is looked up in the real router under base path + template, and (simple descriptions) ONE handler is sent a history of requests: 2-3 rounds over all operations, each round in another order, " +
+		"in round k the k-th alternative requirement satisfied (exactly its schemes), the body's content type one the route admits spelled as declared / in mixed case / with parameters, the Accept header absent, the wildcard, an offer, its type wildcard, weighted lists, two lines - in half of the rounds the same for all operations; " +
+		"one operation in three shares its path with another one (other method, own produces); after the first round 1 request in 12 comes without credentials; every request is repeated on a fresh API value + context + handler, and the responses of the history are read again at its end; " +
+		"2 cases in 5 go on with 1-3 further batches of registrations on the SAME API value (nothing, a superfluous authenticator/consumer/producer/operation, the JSON defaults dropped, a registration repeated, the exact set), Validate() after each, compared with a fresh API value given all registrations so far. " +
 		"Non-trivial: at least two categories are non-empty, or validation fails, or an operation is exercised."
 }
 
@@ -190,14 +230,227 @@ func c19AllMedia(in c19In) [][]Bs {
 	return out
 }
 
-type c19Producer struct{}
+// a producer that writes the key it was registered under
+type c19Producer struct{ key string }
 
-func (c19Producer) Produce(w io.Writer, v interface{}) error { _, err := w.Write([]byte("ok")); return err }
+func (p c19Producer) Produce(w io.Writer, v interface{}) error { _, err := w.Write([]byte(p.key)); return err }
 
 func c19Sorted(xs []string) []Bs {
 	ys := append([]string{}, xs...)
 	sort.Strings(ys)
 	return toBs(ys)
+}
+
+// one API value with its registrations, and (once built) the context and handler serving it
+type c19Inst struct {
+	api    *untyped.API
+	ctx    *middleware.Context
+	h      http.Handler
+	ran    int
+	ranKey string
+}
+
+func c19DefType(in c19In, name string) string {
+	for _, d := range in.Defs {
+		if d.Name == name {
+			return d.Type
+		}
+	}
+	return "basic"
+}
+
+func (x *c19Inst) register(in c19In, regs []c19Reg) {
+	for _, r := range regs {
+		switch r.Kind {
+		case "consumer":
+			x.api.RegisterConsumer(string(r.A), runtime.ByteStreamConsumer())
+		case "producer":
+			x.api.RegisterProducer(string(r.A), c19Producer{strings.ToLower(string(r.A))})
+		case "operation":
+			key := strings.ToUpper(string(r.A)) + " " + string(r.B)
+			x.api.RegisterOperation(string(r.A), string(r.B), runtime.OperationHandlerFunc(func(interface{}) (interface{}, error) {
+				x.ran++
+				x.ranKey = key
+				return "v", nil
+			}))
+		case "auth":
+			name := string(r.A)
+			if c19DefType(in, name) == "basic" {
+				// one Authorization header serves every basic scheme: the user name lists the schemes it is good for
+				x.api.RegisterAuth(name, security.BasicAuth(func(u, p string) (interface{}, error) {
+					for _, s := range strings.Split(u, "+") {
+						if s == name {
+							return "principal", nil
+						}
+					}
+					return nil, nil
+				}))
+			} else {
+				x.api.RegisterAuth(name, security.APIKeyAuth("X-"+name, "header", func(string) (interface{}, error) { return "principal", nil }))
+			}
+		case "nojson":
+			x.api.WithoutJSONDefaults()
+		}
+	}
+}
+
+func c19NewInst(doc *loads.Document, in c19In, batches ...[]c19Reg) *c19Inst {
+	x := &c19Inst{api: untyped.NewAPI(doc), ran: -1}
+	for _, b := range batches {
+		x.register(in, b)
+	}
+	return x
+}
+
+func (x *c19Inst) serve(doc *loads.Document) {
+	x.ctx = middleware.NewContext(doc, x.api, nil)
+	x.h = x.ctx.APIHandler(nil)
+}
+
+func c19Answer(verr error) c19Ans {
+	var a c19Ans
+	if verr != nil {
+		if f, ok := verr.(*errors.APIVerificationFailed); ok {
+			a.Err = &c19Fail{Section: f.Section, Unspecified: toBs(f.MissingSpecification), Unregistered: toBs(f.MissingRegistration)}
+		} else {
+			a.OtherErr = verr.Error()
+		}
+	}
+	return a
+}
+
+// the media types the route of an operation admits / offers: its own or the global ones, then the API default
+func c19RouteMedia(own, global []Bs, def string) []string {
+	l := own
+	if len(l) == 0 {
+		l = global
+	}
+	out := c19Set(l)
+	if def != "" {
+		for _, m := range out {
+			if strings.EqualFold(m, def) {
+				return out
+			}
+		}
+		out = append(out, def)
+	}
+	return out
+}
+
+func c19Alternatives(in c19In, o c19Op) [][]string {
+	if o.Security != nil {
+		return *o.Security
+	}
+	return in.GSecurity
+}
+
+// the plain history: every operation once, in order; a body with the first admitted content type for POST/PUT, credentials for every scheme
+func c19DefaultReqs(in c19In, def string) []c19Req {
+	var out []c19Req
+	for i, o := range in.Ops {
+		rq := c19Req{Op: i}
+		if o.Method == "POST" || o.Method == "PUT" {
+			if adm := c19RouteMedia(o.Consumes, in.GConsumes, def); len(adm) > 0 {
+				l := o.Consumes
+				if len(l) == 0 {
+					l = in.GConsumes
+				}
+				if len(l) > 0 {
+					rq.CT = l[0]
+				} else {
+					rq.CT = Bs(adm[0])
+				}
+			}
+		}
+		for _, d := range in.Defs {
+			rq.Creds = append(rq.Creds, d.Name)
+		}
+		out = append(out, rq)
+	}
+	return out
+}
+
+func c19Request(in c19In, rq c19Req) (*http.Request, string) {
+	o := in.Ops[rq.Op]
+	target := c19Target(in, o)
+	var body io.Reader
+	if rq.CT != "" {
+		body = strings.NewReader("{}")
+	}
+	req := httptest.NewRequest(o.Method, target, body)
+	if rq.CT != "" {
+		req.Header.Set("Content-Type", string(rq.CT))
+	}
+	for _, a := range rq.Accept {
+		req.Header.Add("Accept", string(a))
+	}
+	var basics []string
+	for _, s := range rq.Creds {
+		known := false
+		for _, d := range in.Defs {
+			known = known || d.Name == s
+		}
+		switch {
+		case !known:
+		case c19DefType(in, s) == "basic":
+			basics = append(basics, s)
+		default:
+			req.Header.Set("X-"+s, "k")
+		}
+	}
+	if len(basics) > 0 {
+		req.SetBasicAuth(strings.Join(basics, "+"), "p")
+	}
+	return req, target
+}
+
+// what a recorder holds for a request the handler of which ran
+func c19Produced(rec *httptest.ResponseRecorder) (Bs, Bs) {
+	body := rec.Body.String()
+	if body == "\"v\"\n" { // the JSON producer NewAPI loads by default
+		body = "application/json"
+	}
+	return Bs(rec.Header().Get("Content-Type")), Bs(body)
+}
+
+func (x *c19Inst) do(in c19In, rq c19Req) (c19Res, *httptest.ResponseRecorder, string) {
+	var res c19Res
+	if rq.Op < 0 || rq.Op >= len(in.Ops) {
+		return c19Res{Outcome: 3, Detail: "no such operation"}, nil, ""
+	}
+	o := in.Ops[rq.Op]
+	req, target := c19Request(in, rq)
+	rec := httptest.NewRecorder()
+	before := x.ran
+	p, msg := recoverTo(func() { x.h.ServeHTTP(rec, req) })
+	status := fmt.Sprintf("status %d %s", rec.Code, strings.TrimSpace(rec.Body.String()))
+	switch {
+	case p && strings.Contains(msg, "can't find a producer for"):
+		res.Outcome, res.Detail = 2, msg
+	case p:
+		res.Outcome, res.Detail = 3, "panic: "+msg
+	case rec.Code == 500 && strings.Contains(rec.Body.String(), "no consumer registered"):
+		res.Outcome, res.Detail = 1, status
+	case x.ran == before+1 && x.ranKey == o.Method+" "+o.Path && rec.Code == 200:
+		res.Outcome = 0
+		res.CType, res.Producer = c19Produced(rec)
+	case x.ran == before+1 && x.ranKey == o.Method+" "+o.Path:
+		res.Outcome, res.Detail = 3, "the handler ran, then "+status
+	case x.ran != before:
+		res.Outcome, res.Ran, res.Detail = 3, x.ranKey, "the handler of another operation ran: "+x.ranKey
+	case rec.Code == 404 || rec.Code == 405:
+		// the request never reached an operation: the router has no route for a declared operation
+		res.Outcome, res.Detail = 4, status
+	case rec.Code == 415:
+		res.Outcome, res.Detail = 5, status
+	case rec.Code == 406:
+		res.Outcome, res.Detail = 6, status
+	case rec.Code == 401:
+		res.Outcome, res.Detail = 7, status
+	default:
+		res.Outcome, res.Detail = 3, status
+	}
+	return res, rec, target
 }
 
 func (c19) Run(inAny any) any {
@@ -214,118 +467,70 @@ func (c19) Run(inAny any) any {
 		obs.AnSchemes = c19Sorted(an.RequiredSecuritySchemes())
 		obs.AnOps = c19Sorted(an.OperationMethodPaths())
 
-		api := untyped.NewAPI(doc)
-		ran, ranKey := -1, ""
-		for _, r := range in.Regs {
-			switch r.Kind {
-			case "consumer":
-				api.RegisterConsumer(string(r.A), runtime.ByteStreamConsumer())
-			case "producer":
-				api.RegisterProducer(string(r.A), c19Producer{})
-			case "operation":
-				key := strings.ToUpper(string(r.A)) + " " + string(r.B)
-				api.RegisterOperation(string(r.A), string(r.B), runtime.OperationHandlerFunc(func(interface{}) (interface{}, error) {
-					ran++
-					ranKey = key
-					return "v", nil
-				}))
-			case "auth":
-				name := string(r.A)
-				typ := "basic"
-				for _, d := range in.Defs {
-					if d.Name == name {
-						typ = d.Type
-					}
-				}
-				if typ == "basic" {
-					api.RegisterAuth(name, security.BasicAuth(func(u, p string) (interface{}, error) { return "principal", nil }))
-				} else {
-					api.RegisterAuth(name, security.APIKeyAuth("X-"+name, "header", func(string) (interface{}, error) { return "principal", nil }))
-				}
-			case "nojson":
-				api.WithoutJSONDefaults()
-			}
+		x := c19NewInst(doc, in, in.Regs)
+		obs.Default = Bs(x.api.DefaultProduces)
+		first := c19Answer(x.api.Validate())
+		obs.Err, obs.OtherErr = first.Err, first.OtherErr
+		if obs.Err == nil && obs.OtherErr == "" {
+			c19Serve(doc, in, x, &obs)
 		}
-		obs.Default = Bs(api.DefaultProduces)
-		verr := api.Validate()
-		if verr != nil {
-			if f, ok := verr.(*errors.APIVerificationFailed); ok {
-				obs.Err = &c19Fail{Section: f.Section, Unspecified: toBs(f.MissingSpecification), Unregistered: toBs(f.MissingRegistration)}
-			} else {
-				obs.OtherErr = verr.Error()
-			}
-			return
-		}
-		// every declared operation of a validated API must have a route (any description), ...
-		ctx := middleware.NewContext(doc, api, nil)
-		h := ctx.APIHandler(nil)
-		for i, o := range in.Ops {
-			req := httptest.NewRequest(o.Method, c19Target(in, o), nil)
-			m, ok := ctx.LookupRoute(req)
-			// the route of this very operation, not a placeholder route of another one that happens to fit
-			obs.Routed = append(obs.Routed, c19Routed{Op: i, Found: ok && m != nil && m.PathPattern == path.Join(in.BasePath, o.Path)})
-		}
-		// ... and is then sent a well-formed request (the serving clause speaks about descriptions whose
-		// media types are lower-case, parameter-free and wildcard-free only)
-		for _, l := range c19AllMedia(in) {
-			for _, mt := range l {
-				m := string(mt)
-				if m == "" || m != strings.ToLower(m) || strings.ContainsAny(m, ";*") {
-					return
-				}
-			}
-		}
-		for i, o := range in.Ops {
-			sv := c19Served{Op: i, Target: c19Target(in, o)}
-			var body io.Reader
-			if o.Method == "POST" || o.Method == "PUT" {
-				cons := o.Consumes
-				if len(cons) == 0 {
-					cons = in.GConsumes
-				}
-				if len(cons) > 0 {
-					sv.CT = cons[0]
-				} else if api.DefaultConsumes != "" {
-					sv.CT = Bs(api.DefaultConsumes)
-				}
-				if sv.CT != "" {
-					body = strings.NewReader("{}")
-				}
-			}
-			req := httptest.NewRequest(o.Method, sv.Target, body)
-			if sv.CT != "" {
-				req.Header.Set("Content-Type", string(sv.CT))
-			}
-			req.SetBasicAuth("u", "p")
-			for _, d := range in.Defs {
-				if d.Type == "apiKey" {
-					req.Header.Set("X-"+d.Name, "k")
-				}
-			}
-			rec := httptest.NewRecorder()
-			before := ran
-			p, msg := recoverTo(func() { h.ServeHTTP(rec, req) })
-			switch {
-			case p && strings.Contains(msg, "can't find a producer for"):
-				sv.Outcome = 2
-			case p:
-				sv.Outcome, sv.Detail = 3, "panic: "+msg
-			case rec.Code == 500 && strings.Contains(rec.Body.String(), "no consumer registered"):
-				sv.Outcome = 1
-			case ran == before+1 && ranKey == o.Method+" "+o.Path:
-				sv.Outcome = 0
-			case ran == before+1:
-				sv.Outcome, sv.Detail = 3, "the handler of another operation ran: "+ranKey
-			case ran == before && (rec.Code == 404 || rec.Code == 405):
-				// the request never reached an operation: the router has no route for a declared operation
-				sv.Outcome, sv.Detail = 4, fmt.Sprintf("status %d %s", rec.Code, strings.TrimSpace(rec.Body.String()))
-			default:
-				sv.Outcome, sv.Detail = 3, fmt.Sprintf("status %d %s", rec.Code, strings.TrimSpace(rec.Body.String()))
-			}
-			obs.Served = append(obs.Served, sv)
+		// the same API value goes on: more registrations, Validate() again after each batch; a fresh value given
+		// all the registrations so far must answer the same
+		batches := [][]c19Reg{in.Regs}
+		for _, step := range in.Steps {
+			x.register(in, step)
+			batches = append(batches, step)
+			obs.More = append(obs.More, c19More{Shared: c19Answer(x.api.Validate()), Fresh: c19Answer(c19NewInst(doc, in, batches...).api.Validate())})
 		}
 	})
 	return obs
+}
+
+// a validated API: the route table, then the history of requests
+func c19Serve(doc *loads.Document, in c19In, x *c19Inst, obs *c19Obs) {
+	// every declared operation of a validated API must have a route (any description), ...
+	x.serve(doc)
+	for i, o := range in.Ops {
+		req := httptest.NewRequest(o.Method, c19Target(in, o), nil)
+		m, ok := x.ctx.LookupRoute(req)
+		// the route of this very operation, not a placeholder route of another one that happens to fit
+		obs.Routed = append(obs.Routed, c19Routed{Op: i, Found: ok && m != nil && m.PathPattern == path.Join(in.BasePath, o.Path)})
+	}
+	// ... and is then sent well-formed requests (the serving clause speaks about descriptions whose
+	// media types are lower-case, parameter-free and wildcard-free only)
+	for _, l := range c19AllMedia(in) {
+		for _, mt := range l {
+			m := string(mt)
+			if m == "" || m != strings.ToLower(m) || strings.ContainsAny(m, ";*") {
+				return
+			}
+		}
+	}
+	reqs := in.Reqs
+	if reqs == nil {
+		reqs = c19DefaultReqs(in, x.api.DefaultConsumes)
+	}
+	// the whole history on ONE handler; every request also on a fresh API value + context + handler
+	var recs []*httptest.ResponseRecorder
+	for _, rq := range reqs {
+		sv := c19Served{Req: rq}
+		var rec *httptest.ResponseRecorder
+		sv.Shared, rec, sv.Target = x.do(in, rq)
+		recs = append(recs, rec)
+		y := c19NewInst(doc, in, in.Regs)
+		y.serve(doc)
+		sv.Fresh, _, _ = y.do(in, rq)
+		obs.Served = append(obs.Served, sv)
+	}
+	// the responses handed out earlier must still read the same after the later requests
+	for i := range obs.Served {
+		if sh := &obs.Served[i].Shared; sh.Outcome == 0 && recs[i] != nil {
+			if ct, prod := c19Produced(recs[i]); ct != sh.CType || prod != sh.Producer {
+				sh.Outcome, sh.Detail = 3, fmt.Sprintf("the response changed after later requests: %q by %q, was %q by %q", ct, prod, sh.CType, sh.Producer)
+				sh.CType, sh.Producer = "", ""
+			}
+		}
+	}
 }
 
 // ---- Gallina ----
@@ -336,9 +541,8 @@ func c19Alts(alts [][]string) string {
 	return coqList(alts, func(a []string) string { return coqBytesList(a) })
 }
 
-func (c19) Coq(inAny any, obsAny any) string {
-	in, obs := inAny.(c19In), obsAny.(c19Obs)
-	regs := coqList(in.Regs, func(r c19Reg) string {
+func c19Regs(regs []c19Reg) string {
+	return coqList(regs, func(r c19Reg) string {
 		switch r.Kind {
 		case "consumer":
 			return "RConsumer " + coqBytes(string(r.A))
@@ -352,6 +556,11 @@ func (c19) Coq(inAny any, obsAny any) string {
 			return "RWithoutJSON"
 		}
 	})
+}
+
+func (c19) Coq(inAny any, obsAny any) string {
+	in, obs := inAny.(c19In), obsAny.(c19Obs)
+	regs := c19Regs(in.Regs)
 	ops := coqList(in.Ops, func(o c19Op) string {
 		sec := "None"
 		if o.Security != nil {
@@ -372,42 +581,156 @@ func (c19) Coq(inAny any, obsAny any) string {
 	if obs.Panicked || obs.OtherErr != "" {
 		errT = "(Some (mkfail 9 [] []))"
 	}
+	res := func(r c19Res) string {
+		return fmt.Sprintf("(mkres %d %s %s)", r.Outcome, coqBytes(string(r.CType)), coqBytes(string(r.Producer)))
+	}
 	served := coqList(obs.Served, func(s c19Served) string {
-		return fmt.Sprintf("(%d, %s, %d)", s.Op, coqBytes(string(s.CT)), s.Outcome)
+		return fmt.Sprintf("(mkreq %d %s %s %s, %s, %s)", s.Req.Op, coqBytes(string(s.Req.CT)), coqBytesList(bsList(s.Req.Accept)), coqBytesList(s.Req.Creds),
+			res(s.Shared), res(s.Fresh))
 	})
 	routed := coqList(obs.Routed, func(s c19Routed) string { return fmt.Sprintf("(%d, %s)", s.Op, coqBool(s.Found)) })
-	return fmt.Sprintf("CValidate %s %s %s %s %s %s %s %s %s", regs, desc, coqBytesList(bsList(obs.AnConsumes)), coqBytesList(bsList(obs.AnProduces)),
-		coqBytesList(bsList(obs.AnSchemes)), coqBytesList(bsList(obs.AnOps)), errT, routed, served)
+	ans := func(a c19Ans) string {
+		switch {
+		case a.OtherErr != "":
+			return "(Some (mkfail 9 [] []))"
+		case a.Err != nil:
+			sec, ok := c19Sections[a.Err.Section]
+			if !ok {
+				sec = 9
+			}
+			return fmt.Sprintf("(Some (mkfail %d %s %s))", sec, coqBytesList(bsList(a.Err.Unspecified)), coqBytesList(bsList(a.Err.Unregistered)))
+		}
+		return "None"
+	}
+	var more []string
+	for i, m := range obs.More {
+		if i < len(in.Steps) {
+			more = append(more, fmt.Sprintf("(%s, %s, %s)", c19Regs(in.Steps[i]), ans(m.Shared), ans(m.Fresh)))
+		}
+	}
+	return fmt.Sprintf("CValidate %s %s %s %s %s %s %s %s %s %s", regs, desc, coqBytesList(bsList(obs.AnConsumes)), coqBytesList(bsList(obs.AnProduces)),
+		coqBytesList(bsList(obs.AnSchemes)), coqBytesList(bsList(obs.AnOps)), errT, routed, served, "["+strings.Join(more, "; ")+"]")
 }
+
+// do the credentials of a request cover one of the alternative requirements (or is there nothing to satisfy)
+func c19Covered(alts [][]string, creds []string) bool {
+	if len(alts) == 0 {
+		return true
+	}
+	has := map[string]bool{}
+	for _, c := range creds {
+		has[c] = true
+	}
+	for _, alt := range alts {
+		ok := true
+		for _, s := range alt {
+			ok = ok && has[s]
+		}
+		if ok {
+			return true
+		}
+	}
+	return false
+}
+
+func c19Same(a, b c19Res) bool { return a.Outcome == b.Outcome && a.CType == b.CType && a.Producer == b.Producer }
 
 func (c19) Classify(inAny any, obsAny any) []string {
 	in, obs := inAny.(c19In), obsAny.(c19Obs)
 	if obs.Err != nil || obs.Panicked || obs.OtherErr != "" {
 		return nil
 	}
-	// a validated API: every operation that was not routed or not served must be explained by one of the open findings,
-	// else the case is a new violation
+	// a validated API: every operation that was not routed and every request that was not served must be explained by one of
+	// the open findings, and nothing may depend on what the API value or the handler did before, else the case is a new violation
+	for _, m := range obs.More {
+		if !reflect.DeepEqual(m.Shared, m.Fresh) {
+			return nil
+		}
+	}
 	unrouted := map[int]bool{}
 	for _, rt := range obs.Routed {
 		if !rt.Found {
 			unrouted[rt.Op] = true
 		}
 	}
-	outcome := map[int]int{}
-	for _, sv := range obs.Served {
-		outcome[sv.Op] = sv.Outcome
+	// F-C19-2, the colliding sub-case: two operations of one method whose templates path.Clean maps to one route. other[i] = the
+	// operation that shares the route of operation i
+	other := map[int]int{}
+	for i, o := range in.Ops {
+		for j, q := range in.Ops {
+			// (exactly one of the two is in normal form and has its handler registered under the route; two unclean ones are both unrouted)
+			if i != j && o.Method == q.Method && path.Join(in.BasePath, o.Path) == path.Join(in.BasePath, q.Path) &&
+				(path.Clean(o.Path) == o.Path) != (path.Clean(q.Path) == q.Path) {
+				other[i] = j
+			}
+		}
 	}
 	kf := map[string]bool{}
-	for i, o := range in.Ops {
-		k, served := outcome[i]
-		switch {
-		case !unrouted[i] && k == 0:
-		case !unrouted[i] && k == 2 && obs.Default == "":
-			kf["validate.no_produces_no_default_producer"] = true
-		case unrouted[i] && (!served || k == 4) && path.Clean(o.Path) != o.Path:
+	requested := map[int]bool{}
+	for _, sv := range obs.Served {
+		i := sv.Req.Op
+		if i < 0 || i >= len(in.Ops) {
+			return nil
+		}
+		o := in.Ops[i]
+		requested[i] = true
+		if j, ok := other[i]; ok {
+			q := in.Ops[j]
+			switch {
+			case path.Clean(o.Path) != o.Path && path.Clean(q.Path) == q.Path:
+				// the template that is not clean: AddRoute gave its route the handler of the colliding operation, exactly that one runs
+				// (or the request is refused before, under the rules of whichever of the two records the router kept)
+				for _, r := range []c19Res{sv.Shared, sv.Fresh} {
+					switch {
+					case r.Outcome == 3 && r.Ran == q.Method+" "+q.Path:
+					case r.Outcome == 5 || r.Outcome == 6 || r.Outcome == 7 || r.Outcome == 1:
+					case r.Outcome == 2 && obs.Default == "" && len(in.GProduces) == 0 && (len(o.Produces) == 0 || len(q.Produces) == 0):
+						kf["validate.no_produces_no_default_producer"] = true
+					default:
+						return nil
+					}
+				}
+				kf["validate.template_not_clean"] = true
+			case path.Clean(o.Path) == o.Path:
+				// the clean one: its own handler runs, under the consumes, produces and security of whichever record the router kept
+				for _, r := range []c19Res{sv.Shared, sv.Fresh} {
+					switch {
+					case r.Outcome == 0 || r.Outcome == 1 || r.Outcome == 5 || r.Outcome == 6 || r.Outcome == 7:
+					case r.Outcome == 2 && obs.Default == "" && len(in.GProduces) == 0 && (len(o.Produces) == 0 || len(q.Produces) == 0):
+						kf["validate.no_produces_no_default_producer"] = true
+					default:
+						return nil
+					}
+				}
+			default:
+				return nil
+			}
+			continue
+		}
+		if !c19Same(sv.Shared, sv.Fresh) {
+			return nil
+		}
+		switch k := sv.Shared.Outcome; {
+		case unrouted[i] && k == 4 && path.Clean(o.Path) != o.Path:
 			kf["validate.template_not_clean"] = true
+		case unrouted[i]:
+			return nil
+		case k == 0:
+		case k == 2 && obs.Default == "" && len(o.Produces) == 0 && len(in.GProduces) == 0:
+			// nothing to offer and no default producer
+			kf["validate.no_produces_no_default_producer"] = true
+		case k == 7 && !c19Covered(c19Alternatives(in, o), sv.Req.Creds):
+			// a request without the credentials of any alternative is rightly refused
 		default:
 			return nil
+		}
+	}
+	for i, o := range in.Ops {
+		if unrouted[i] && !requested[i] {
+			if path.Clean(o.Path) == o.Path {
+				return nil
+			}
+			kf["validate.template_not_clean"] = true
 		}
 	}
 	var out []string
@@ -434,8 +757,8 @@ func (c19) Category(inAny any, obsAny any) (string, bool) {
 	} else {
 		worst := 0
 		for _, s := range obs.Served {
-			if s.Outcome > worst {
-				worst = s.Outcome
+			if s.Shared.Outcome > worst {
+				worst = s.Shared.Outcome
 			}
 		}
 		unrouted, dots := 0, 0
@@ -465,10 +788,54 @@ func (c19) Category(inAny any, obsAny any) (string, bool) {
 		default:
 			bc = "plain"
 		}
-		res = fmt.Sprintf("valid/served-%d/worst-%d/base-%s/dots-or-base-in-template-%d", len(obs.Served), worst, bc, dots)
+		res = fmt.Sprintf("valid/base-%s/dots-or-base-in-template-%d", bc, dots)
 		if unrouted > 0 {
 			res += fmt.Sprintf("/unrouted-%d", unrouted)
 		}
+		if len(obs.Served) > 0 {
+			// the dimensions of the request history: mixed-case / parameterised content types, alternatives satisfied other than the
+			// last, requests to two operations of one path with different offers under one Accept header
+			mixed, param, alt, samePath := 0, 0, 0, 0
+			type pa struct{ path, accept string }
+			seen := map[pa]string{}
+			for _, s := range obs.Served {
+				ct := string(s.Req.CT)
+				if i := strings.Index(ct, ";"); i >= 0 {
+					param = 1
+					ct = ct[:i]
+				}
+				if ct != strings.ToLower(ct) {
+					mixed = 1
+				}
+				o := in.Ops[s.Req.Op]
+				if alts := c19Alternatives(in, o); len(alts) > 1 && c19Covered(alts, s.Req.Creds) && !c19Covered(alts[len(alts)-1:], s.Req.Creds) {
+					alt = 1
+				}
+				k := pa{o.Path, strings.Join(bsList(s.Req.Accept), ",")}
+				offers := strings.Join(c19RouteMedia(o.Produces, in.GProduces, string(obs.Default)), ",")
+				if prev, ok := seen[k]; ok && prev != offers {
+					samePath = 1
+				}
+				seen[k] = offers
+			}
+			res += fmt.Sprintf("/served/worst-%d/ct-mixed-%d/ct-param-%d/non-last-alternative-%d/same-path-and-accept-other-offers-%d",
+				worst, mixed, param, alt, samePath)
+		}
+	}
+	if len(obs.More) > 0 {
+		// the history of Validate() answers on the one API value: n = nil, f = a failure
+		h := "n"
+		if obs.Err != nil {
+			h = "f"
+		}
+		for _, m := range obs.More {
+			if m.Shared.Err == nil && m.Shared.OtherErr == "" {
+				h += "n"
+			} else {
+				h += "f"
+			}
+		}
+		res += "/validate-history-" + h
 	}
 	if obs.Panicked {
 		res = "panic"
@@ -629,6 +996,15 @@ func (c19) Gen(r *rand.Rand, tier string, i int) any {
 	seen := map[string]bool{}
 	for j := 0; j < nops; j++ {
 		o := c19Op{Method: c19Meths[r.Intn(4)], Path: c19Template(r, in.BasePath)}
+		if len(in.Ops) > 0 && r.Intn(3) == 0 { // another method of a path that already has an operation
+			o.Path = in.Ops[r.Intn(len(in.Ops))].Path
+		}
+		if len(in.Ops) > 0 && r.Intn(60) == 0 {
+			// F-C19-2, the colliding sub-case: the template of an earlier operation of the same method with a trailing slash
+			if q := in.Ops[r.Intn(len(in.Ops))]; q.Path != "/" {
+				o.Method, o.Path = q.Method, q.Path+"/"
+			}
+		}
 		if seen[o.Method+o.Path] {
 			continue
 		}
@@ -695,6 +1071,7 @@ func (c19) Gen(r *rand.Rand, tier string, i int) any {
 	for _, s := range sn {
 		regs = append(regs, c19Reg{Kind: "auth", A: Bs(s)})
 	}
+	exact := append([]c19Reg{}, regs...)
 	in.Variant = "exact"
 	switch v := r.Intn(24); {
 	case v < 8: // exact
@@ -758,5 +1135,158 @@ func (c19) Gen(r *rand.Rand, tier string, i int) any {
 		regs = out
 	}
 	in.Regs = regs
+	if r.Intn(5) < 2 {
+		in.Steps = c19GenSteps(r, in, exact)
+	}
+	in.Reqs = c19GenReqs(r, in)
 	return in
+}
+
+// later batches of registrations on the same API value: nothing, something superfluous of each kind (an authenticator, a consumer, a
+// producer, an operation), the JSON defaults dropped, something registered again, the exact set registered (repairs omissions)
+func c19GenSteps(r *rand.Rand, in c19In, exact []c19Reg) [][]c19Reg {
+	n := 1 + r.Intn(3)
+	var steps [][]c19Reg
+	for k := 0; k < n; k++ {
+		var b []c19Reg
+		for j := 1 + r.Intn(2); j > 0; j-- {
+			switch r.Intn(9) {
+			case 0: // nothing
+			case 1:
+				b = append(b, c19Reg{Kind: "auth", A: Bs([]string{"basic", "key", "other", "extra"}[r.Intn(4)])})
+			case 2:
+				b = append(b, c19Reg{Kind: "nojson"})
+			case 3:
+				b = append(b, c19Reg{Kind: "consumer", A: Bs(c19Media[r.Intn(len(c19Media))])})
+			case 4:
+				b = append(b, c19Reg{Kind: "producer", A: Bs(c19Media[r.Intn(len(c19Media))])})
+			case 5:
+				b = append(b, c19Reg{Kind: "operation", A: Bs(c19Meths[r.Intn(4)]), B: Bs(c19Template(r, in.BasePath))})
+			case 6:
+				b = append(b, in.Regs[r.Intn(len(in.Regs))])
+			case 7:
+				b = append(b, exact[r.Intn(len(exact))])
+			default:
+				b = append(b, exact[1:]...)
+			}
+		}
+		steps = append(steps, b)
+	}
+	return steps
+}
+
+// spellings of a media type in a Content-Type header: as declared, in mixed case, with parameters, both
+func c19SpellCT(r *rand.Rand, mt string) string {
+	mixed := func(s string) string {
+		switch r.Intn(3) {
+		case 0:
+			return strings.ToUpper(s)
+		case 1:
+			return strings.ToUpper(s[:1]) + s[1:]
+		default:
+			b := []byte(s)
+			for i := range b {
+				if r.Intn(2) == 0 && b[i] >= 'a' && b[i] <= 'z' {
+					b[i] -= 'a' - 'A'
+				}
+			}
+			if string(b) == s {
+				return strings.ToUpper(s)
+			}
+			return string(b)
+		}
+	}
+	params := []string{"; charset=utf-8", ";charset=UTF-8", " ; Charset=utf-8", "; charset=utf-8; boundary=x"}
+	switch r.Intn(5) {
+	case 0, 1:
+		return mt
+	case 2, 3:
+		return mixed(mt)
+	default:
+		if r.Intn(2) == 0 {
+			mt = mixed(mt)
+		}
+		return mt + params[r.Intn(len(params))]
+	}
+}
+
+// Accept headers that the offers of a route satisfy: absent, the full wildcard, an offer, its type wildcard, lists with weights
+func c19AcceptFor(r *rand.Rand, offers []string) []Bs {
+	if len(offers) == 0 {
+		return [][]Bs{nil, {"*/*"}, {"text/plain"}}[r.Intn(3)]
+	}
+	p := offers[r.Intn(len(offers))]
+	q := offers[r.Intn(len(offers))]
+	typ := p[:strings.Index(p+"/", "/")]
+	switch r.Intn(9) {
+	case 0:
+		return nil
+	case 1:
+		return []Bs{"*/*"}
+	case 2:
+		return []Bs{Bs(p)}
+	case 3:
+		return []Bs{Bs(typ + "/*")}
+	case 4:
+		return []Bs{Bs("text/html, " + p + ";q=0.8, */*;q=0.1")}
+	case 5:
+		return []Bs{Bs(p + ";q=0.4, " + q + ";q=0.7")}
+	case 6:
+		return []Bs{Bs("image/png"), Bs(p)} // two header lines
+	case 7:
+		return []Bs{Bs("application/x-none;q=1.0, " + typ + "/*;q=0.5")}
+	default:
+		return []Bs{Bs(p + "; charset=utf-8")}
+	}
+}
+
+// the history of requests for one handler: 2-3 rounds over all operations, each round in another order; in round k the
+// k-th alternative requirement of the operation is satisfied (exactly its schemes), the content type is one the route admits in a
+// random spelling, the Accept header is one the route satisfies - in half of the rounds the same for every operation (absent or
+// the full wildcard), so that operations of one path meet under one header. After the first round a request may come without
+// any credentials.
+func c19GenReqs(r *rand.Rand, in c19In) []c19Req {
+	def := "application/json"
+	for _, g := range in.Regs {
+		if g.Kind == "nojson" {
+			def = ""
+		}
+	}
+	rounds := 2 + r.Intn(2)
+	for _, o := range in.Ops {
+		if len(c19Alternatives(in, o)) > 2 {
+			rounds = 3
+		}
+	}
+	var out []c19Req
+	for k := 0; k < rounds; k++ {
+		var common []Bs
+		shared := r.Intn(2) == 0
+		if shared && r.Intn(2) == 0 {
+			common = []Bs{"*/*"}
+		}
+		for _, i := range r.Perm(len(in.Ops)) {
+			o := in.Ops[i]
+			rq := c19Req{Op: i}
+			if alts := c19Alternatives(in, o); len(alts) > 0 && !(k > 0 && r.Intn(12) == 0) {
+				rq.Creds = append([]string{}, alts[(k+i)%len(alts)]...)
+			} else if len(alts) == 0 && r.Intn(4) == 0 && len(in.Defs) > 0 {
+				rq.Creds = []string{in.Defs[r.Intn(len(in.Defs))].Name} // credentials nobody asked for
+			}
+			body := o.Method == "POST" || o.Method == "PUT"
+			if r.Intn(8) == 0 {
+				body = !body
+			}
+			if adm := c19RouteMedia(o.Consumes, in.GConsumes, def); body && len(adm) > 0 {
+				rq.CT = Bs(c19SpellCT(r, adm[r.Intn(len(adm))]))
+			}
+			if shared {
+				rq.Accept = common
+			} else {
+				rq.Accept = c19AcceptFor(r, c19RouteMedia(o.Produces, in.GProduces, def))
+			}
+			out = append(out, rq)
+		}
+	}
+	return out
 }
